@@ -527,22 +527,91 @@ def import_statements(tl):
 def expected_words(tl):
     """The comment (kind, word) sequence the property allows in the output: comments keep their order,
     except that the comments of an import statement move with that statement when the import lines are
-    sorted by module path (lines of one module are merged, in source order)."""
+    sorted by module path (lines of one module are merged, in source order), and inside one printed
+    import line the comments of the imported members move with their member when the members are
+    sorted by name (they are printed inside the braces, after the line's own comments)."""
     stmts = import_statements(tl)
-    groups = [[] for _ in stmts]
+    line_c = [[] for _ in stmts]          # comments of the statement itself
+    memb_c = [[] for _ in stmts]          # (member name, seq, words)
     rest = []
+    def next_real(j):
+        j += 1
+        while j < len(tl) and tl[j][0] in COMMENT_KINDS:
+            j += 1
+        return j
+    braces = []                           # (index of `{`, index of `}`) per statement
+    start = 0
+    for gi, (end, _) in enumerate(stmts):
+        o = c = None
+        for j in range(start, end + 1):
+            if tokcls(tl[j]) == "{" and o is None:
+                o = j
+            elif tokcls(tl[j]) == "}" and c is None:
+                c = j
+        braces.append((o if o is not None else -1, c if c is not None else -1))
+        start = end + 1
+    seq = 0
     for j, t in enumerate(tl):
         if t[0] not in COMMENT_KINDS:
             continue
         ws = [(t[0], w) for w in t[5].split()]
         for gi, (end, _) in enumerate(stmts):
             if j < end:
-                groups[gi] += ws
+                o, c = braces[gi]
+                member = None
+                if o < j < c:
+                    k = next_real(j)
+                    if k < c and tokcls(tl[k]) == ",":
+                        k = next_real(k)      # a comment before `,` is handed to the next member
+                    if k < c and tl[k][0] == "upper":
+                        member = tl[k][5]
+                if member is None:
+                    line_c[gi] += ws
+                else:
+                    seq += 1
+                    memb_c[gi].append((member, seq, ws))
                 break
         else:
             rest += ws
     order = sorted(range(len(stmts)), key=lambda gi: (stmts[gi][1].encode(), gi))
-    return [w for gi in order for w in groups[gi]] + rest
+    out = []
+    i = 0
+    while i < len(order):
+        k = i
+        while k < len(order) and stmts[order[k]][1] == stmts[order[i]][1]:
+            k += 1
+        grp = order[i:k]
+        for gi in grp:
+            out += line_c[gi]
+        ms = [m for gi in grp for m in memb_c[gi]]
+        for _, _, ws in sorted(ms, key=lambda m: (m[0].encode(), m[1])):
+            out += ws
+        i = k
+    return out + rest
+
+
+def only_close_paren_comments_moved(tl, expected, got):
+    """Signature of C09-F6: the output has the same comments, and the only ones out of order are comments
+    written directly before a `)` (they are kept in front of the parenthesised expression)."""
+    moved = []
+    for j, t in enumerate(tl):
+        if t[0] in COMMENT_KINDS:
+            k = j + 1
+            while k < len(tl) and tl[k][0] in COMMENT_KINDS:
+                k += 1
+            if k < len(tl) and tokcls(tl[k]) == ")":
+                moved += [(t[0], w) for w in t[5].split()]
+    if not moved or sorted(expected) != sorted(got):
+        return False
+    def without(seq):
+        m = list(moved); out = []
+        for x in seq:
+            if x in m:
+                m.remove(x)
+            else:
+                out.append(x)
+        return out
+    return without(expected) == without(got)
 
 
 def judge(cases):
@@ -569,6 +638,7 @@ def judge(cases):
                     fail = "duplicated"
                 elif sorted(ci) == sorted(co):
                     fail = "reordered"
+                    c["close_paren_only"] = only_close_paren_comments_moved(ti, ci, co)
                 else:
                     fail = "changed"
                 c["detail"] = f"comments expected (source order, import lines moved as wholes): {ci}; comments out: {co}"
@@ -601,17 +671,17 @@ def load_contexts():
 
 
 def classify(ctxs, c):
-    """known finding id or None (=> violation). Signatures (findings/C09.json) are exact:
-    C09-F2 = failure `dropped` at a position (module text hash, gap index, comment kind) that the
-    reference enumeration of the unchanged tree recorded as dropping; C09-F4 = `nonidempotent` where the
-    second pass only adds empty `//` lines. Nothing else is ever excused."""
+    """known finding id or None (=> violation). Only C09-F4 is still open: `nonidempotent` where the
+    second pass only adds empty `//` lines, or at an exact position (module hash:gap:kind:text id) the
+    reference enumeration of the unchanged tree recorded (re-wrapped line comment containing a double
+    blank). C09-F2 and C09-F5 are fixed: a dropped comment or any other non-idempotence anywhere is a
+    VIOLATION."""
     k = c["fail"]
-    if k == "nonidempotent" and only_empty_line_comments_added(c.get("out") or "", c.get("out2") or ""):
+    if k == "reordered" and (c.get("close_paren_only") or c.get("key") in ctxs["reordered_set"]):
+        return "C09-F6"
+    if k == "nonidempotent" and (only_empty_line_comments_added(c.get("out") or "", c.get("out2") or "")
+                                 or c.get("key") in ctxs["nonidem_set"]):
         return "C09-F4"
-    if k == "dropped" and c.get("key") in ctxs["dropped_set"]:
-        return "C09-F2"
-    if k == "nonidempotent" and c.get("key") in ctxs["nonidem_set"]:
-        return "C09-F5"
     return None
 
 
@@ -620,6 +690,7 @@ def module_phase(ctx):
     ctxs = load_contexts()
     ctxs["dropped_set"] = set(ctxs.get("dropped", []))
     ctxs["nonidem_set"] = set(ctxs.get("nonidempotent", []))
+    ctxs["reordered_set"] = set(ctxs.get("reordered", []))
     bases = list(HAND_BASES) + IMPORT_BASES
     pieces = repo_pieces(140 if ctx.quick else 400)
     nhand = len(bases)
@@ -627,7 +698,8 @@ def module_phase(ctx):
     basetoks = tokens_of(bases)
     select = select_all(bases)
     multi = multi_comment_cases(rng, ctx.scale(40, 400))
-    cases = judge(make_cases(bases, basetoks, select) + multi)
+    pairs = pair_cases(bases, basetoks, nhand)
+    cases = judge(make_cases(bases, basetoks, select) + multi + pairs)
     stats = collections.Counter()
     known_hits = collections.Counter()
     reported = 0
@@ -692,7 +764,7 @@ def module_phase(ctx):
                            "broken": "hypothesis `Agree commentKey d` on the printer's documents"}, no_input=True)
             break
     return {"module_cases": len(cases), "module_verdicts": dict(stats), "known_finding_hits": dict(known_hits),
-            "import_sections_equal_to_model": n_imports, "multi_comment_import_cases": len(multi),
+            "import_sections_equal_to_model": n_imports, "multi_comment_import_cases": len(multi), "pair_cases": len(pairs),
             "bases_hand": nhand, "bases_repo_pieces": len(pieces), "real_documents_laid_out_by_model": len(docs),
             "agree_on_real_documents": dict(agree_stats)}, cases, samples
 
@@ -749,6 +821,26 @@ def imports_phase(ctx, srcs):
     return ok
 
 
+def pair_cases(bases, basetoks, nbases):
+    """Two distinct comments in neighbouring token gaps (g, g+1) and (g, g+2) of the hand-written and
+    import modules: interactions between adjacent attachment points (order, merging)."""
+    cases = []
+    for bi in range(nbases):
+        src, tl = bases[bi], basetoks[bi]
+        b = src.encode(); offs = line_offsets(src)
+        pos = [offs[t[1]] + t[2] for t in tl] + [len(b)]
+        for g in range(len(pos)):
+            for d in (1, 2):
+                if g + d >= len(pos):
+                    continue
+                p1, p2 = pos[g], pos[g + d]
+                m = (b[:p1] + b" /* pa one */ " + b[p1:p2] + b" /* pb two */ " + b[p2:]).decode()
+                cases.append({"base": bi, "gap": g, "kind": "block", "text": "pair", "width": 100,
+                              "key": f"{hashlib.sha1(b).hexdigest()[:10]}:pair:{g}:{d}",
+                              "ctx4": f"PAIR gaps {g},{g + d}", "ctx2": "PAIR", "src": m})
+    return cases
+
+
 def regen_contexts():
     """Maintenance (run on the unchanged tree only): enumerate every gap of every base and record the
     token contexts in which the unchanged code fails / passes.  `python3 -m vlib.c09 regen`"""
@@ -756,18 +848,19 @@ def regen_contexts():
     bases = list(HAND_BASES) + IMPORT_BASES + repo_pieces(400)
     basetoks = tokens_of(bases)
     select = select_all(bases)
-    cases = judge(make_cases(bases, basetoks, select))
+    cases = judge(make_cases(bases, basetoks, select) + pair_cases(bases, basetoks, len(HAND_BASES) + len(IMPORT_BASES)))
+    reordered = sorted({c["key"] for c in cases if c["fail"] == "reordered"})
     dropped = sorted({c["key"] for c in cases if c["fail"] == "dropped"})
     nonidem = sorted({c["key"] for c in cases if c["fail"] == "nonidempotent"
                       and not only_empty_line_comments_added(c.get("out") or "", c.get("out2") or "")})
-    other = collections.Counter(c["fail"] for c in cases if c["fail"] not in (None, "dropped", "nonidempotent", "skip-unparseable"))
+    other = collections.Counter(c["fail"] for c in cases if c["fail"] not in (None, "dropped", "nonidempotent", "reordered", "skip-unparseable"))
     ctx4 = sorted({c["ctx4"] for c in cases if c["fail"] == "dropped"})
     json.dump({"_comment": "generated by `python3 -m vlib.c09 regen` on the unchanged tree: exact positions (sha1(module text)[:10]:gap index:comment kind) at which parse+print drops an inserted comment (finding C09-F2); dropped_contexts is informational only (prev2 prev | next next2 token classes)",
-               "cases": len(cases), "dropped": dropped, "nonidempotent": nonidem, "dropped_contexts": ctx4}, open(CTX_FILE, "w"), indent=0)
-    print("nonidempotent positions:", len(nonidem))
+               "cases": len(cases), "dropped": dropped, "nonidempotent": nonidem, "reordered": reordered, "dropped_contexts": ctx4}, open(CTX_FILE, "w"), indent=0)
+    print("nonidempotent positions:", len(nonidem), "reordered pair positions:", len(reordered))
     print("dropped positions:", len(dropped), "contexts:", len(ctx4), "cases:", len(cases), "other failures:", dict(other))
     for c in cases:
-        if c["fail"] not in (None, "dropped", "nonidempotent", "skip-unparseable"):
+        if c["fail"] not in (None, "dropped", "nonidempotent", "reordered", "skip-unparseable"):
             print(c["fail"], c["ctx4"], repr(c["src"][:300])); break
 
 
@@ -813,8 +906,8 @@ def run(ctx):
         "samples": samples,
         "traces_validated_against_impl": n1 + n2 + n3 + extra.get("real_documents_laid_out_by_model", 0),
         "part_b_fragment_corollaries": partb,
-        "pending": ["roundtrip_with_comments for comments attached to operator nodes (text-level statement is false: open finding C09-F5); per-production attachment model of the parser"],
-        "partial_theorems": {"format_idempotent_fragment_partial": "C08's decidable side condition RT e (operands left unparenthesised only where the parser reads them back as operands); token level; comments only on atoms",
+        "pending": ["text-level (layout-level) idempotence as a theorem needs the printer's document construction per construct in the model; comments on operator tokens in the fragment round trip; hook-level tie for keep_parenthesis_comments / leftmost attachment (today tied only through the module oracle)"],
+        "partial_theorems": {"format_idempotent_fragment_partial / roundtrip_with_comments_partial / format_idempotent_with_comments_partial": "C08's decidable side condition RT e; token level; comments on atoms (normal form the parser produces since fix a0babc7); atom table without duplicates",
                              "lineComment/multilineComment_content_equal": "content read modulo the repeated leaders `// ` and ` * ` (commentKey)"},
     })
     ctx.cov.update(extra)
@@ -822,7 +915,7 @@ def run(ctx):
                         "char::is_whitespace = Unicode White_Space as listed in Model/Doc.lean isWs",
                         "the lexer's comment tokens are taken as the definition of `the comments of a text` (oracle uses the real token producer on input and output)"]
     return ctx.finish(res, trusted=common.TRUSTED_COMMON + [
-        "hand-written models Model/Doc.lean (all of prettier.rs), Model/CommentQueue.lean (peek/consume, create_comment_reference, comment prepending), Model/Imports.lean (import grouping/merging/sorting and import_to_document); builder-C08's Model/Fmt.lean for the fragment corollary",
+        "hand-written models Model/Doc.lean (all of prettier.rs), Model/CommentQueue.lean (peek/consume, create_comment_reference, comment prepending), Model/Imports.lean (import grouping/merging/sorting and import_to_document); Model/Attach.lean (outer vs leftmost attachment of preceding comments, normal form); builder-C08's Model/Fmt.lean for the fragment corollaries",
         "hooks samlang_printer::verif_hooks (layout/expand/flatten/module_doc) and samlang_parser::verif_hooks_queue",
         "not modelled (oracle only): the per-production comment attachment of source_parser.rs and the per-construct document construction of source_printer.rs; for the latter the hypothesis Agree(commentKey) of layout_preserves_text is evaluated on the real documents at run time",
         "vlib/c09_contexts.json: token contexts of the open findings C09-F2/C09-F3 (reference enumeration on the unchanged tree)"])
